@@ -2179,14 +2179,14 @@ func (p *wat2cWorker) buildFunc_ins(w io.Writer, fn *ast.Func, stk *valueTypeSta
 	case token.INS_I64_TRUNC_F32_S:
 		sp0 := stk.Pop(token.F32)
 		ret0 := stk.Push(token.I64)
-		fmt.Fprintf(w, "%sR%d.i64 = (int64_t)(int32_t)(truncf(R%d.f32)); // %s\n",
+		fmt.Fprintf(w, "%sR%d.i64 = (int64_t)(truncf(R%d.f32)); // %s\n",
 			indent, ret0, sp0,
 			insString(i),
 		)
 	case token.INS_I64_TRUNC_F32_U:
 		sp0 := stk.Pop(token.F32)
 		ret0 := stk.Push(token.I64)
-		fmt.Fprintf(w, "%sR%d.i64 = (int64_t)(uint32_t)(truncf(R%d.f32)); // %s\n",
+		fmt.Fprintf(w, "%sR%d.i64 = (int64_t)(uint64_t)(truncf(R%d.f32)); // %s\n",
 			indent, ret0, sp0,
 			insString(i),
 		)
